@@ -769,8 +769,18 @@ func init() {
 		},
 		"github.com/oklog/ulid/v2.Now":       func(m *Machine, _ *frame, fn *ssa.Function, a []Value) Value { return m.C.Const(64, 1700000000000) },
 		"github.com/oklog/ulid/v2.Timestamp": func(m *Machine, _ *frame, fn *ssa.Function, a []Value) Value { return m.C.Const(64, 1700000000000) },
-		// ulid.MustNew: fresh, pairwise distinct identifiers (documented contract: unique ids)
+		// ulid.MustNew(ms, entropy): with an entropy source, fresh pairwise distinct identifiers (the
+		// library's contract); with a NIL entropy source the identifier is a function of the
+		// timestamp alone, and ulid.Now() above is constant: two such identifiers are EQUAL (two
+		// calls within one millisecond), which is what the real library gives.
 		"github.com/oklog/ulid/v2.MustNew": func(m *Machine, _ *frame, fn *ssa.Function, a []Value) Value {
+			if iv, ok := a[1].(Iface); ok && iv.T == nil {
+				arr := make(Array, 16)
+				for i := range arr {
+					arr[i] = m.C.Const(8, 0)
+				}
+				return arr
+			}
 			n, _ := m.natives["ulid.counter"].(int)
 			n++
 			m.natives["ulid.counter"] = n
